@@ -92,6 +92,8 @@ class AsyncIOClient(ABC):
             build_network_map = build_network_map)
         self.encoder = NMEA2000Encoder()
         self.lock = asyncio.Lock()
+        # Serialises send() calls: the packets of one message must not be interleaved with another message's
+        self._send_lock = asyncio.Lock()
         
         # Setup logging
         self.logger = logging.getLogger(__name__)
@@ -249,10 +251,13 @@ class AsyncIOClient(ABC):
         try:
             msgs = self._encode_impl(nmea2000Message)
             assert self.writer is not None
-            for msg in msgs:
-                self.writer.write(msg)
-                await self.writer.drain()
-                self.logger.debug(f"Sent: {msg.hex()}")
+            # drain() may suspend: hold the lock so that concurrent send() calls cannot interleave
+            # their packets inside a multi-frame (fast-packet) message
+            async with self._send_lock:
+                for msg in msgs:
+                    self.writer.write(msg)
+                    await self.writer.drain()
+                    self.logger.debug(f"Sent: {msg.hex()}")
 
         except ValueError as ve:
                 self.logger.warning(f"Failed to encode message. Error {ve}")
